@@ -26,6 +26,10 @@ Tie and oracle (every part runs on each check):
      201/202/207, elements of every arithmetic class (scale 0 and reference 0, scaled, with reference value), the raw
      integers 2^k-1, 2^k and neighbours for k around the Table B width, around the width in force and in between,
      each in an all-equal column, as minimum / as maximum of a varying column, next to a missing entry.
+ (f) structural values of compressed data (harness/structcols.py, finding F24): bit-level messages in which a delayed
+     replication factor (031000/031001/031002) or a bitmap bit (031031), at top level or inside / behind replications, is
+     missing or different in one later subset / in the first subset only / missing in all; whatever decodes is written
+     again uncompressed and compressed by the Encoder and has to decode to the same values, labels and links.
  (d) random columns: widths 1..64 (201YYY on a scale-0 element), scaled numerics up to 48 bits,
      up to 60 subsets, character columns (missing / equal / different / NUL bytes / 0xFF bytes /
      short strings, 205YYY, 208YYY), code/flag columns reaching the field's own all-ones value, new
@@ -42,6 +46,7 @@ from harness import core, tables_io
 from harness import coder_io as C
 from harness import coderprops as P
 from harness import c05widths
+from harness import structcols
 
 PROP = 'C05'
 
@@ -68,7 +73,12 @@ META = dict(
          'incl. strings, all-ones code values, new reference values, associated and skipped fields.',
     technique='Lean 4 theorems (induction over columns, bit arithmetic) + metamorphic oracle on the implementation + checked '
               'model/implementation correspondence',
-    note='Whole-template transparency is proved for the CHECKED compressed encoder (C05_walk_transparent: side conditions field '
+    note='Finding F24 (fixed): structural values of compressed data - Props/C05Factors.lean (the factor the compressed decoder / '
+         'encoder replicates by is the value EVERY subset holds; the repaired check refuses every other column with the library '
+         'error) and part (f) of the check (harness/structcols.py: bit-level compressed messages whose delayed replication factor or '
+         'bitmap bit is missing / different in one subset, at top level and inside replications; what decodes must decode the same '
+         'from its uncompressed and re-compressed forms); the bitmap case is the open finding F24-bitmap. '
+         'Whole-template transparency is proved for the CHECKED compressed encoder (C05_walk_transparent: side conditions field '
          'width <= 64, replication factors / bitmap entries equal in all subsets and read back as supplied, no missing value in '
          'a one-bit field of a varying column); outside those conditions it is carried by the oracle and the correspondence. '
          'A missing value in a 1-bit field is not a conforming input. Floats: the model uses exact decimals, compressed vs '
@@ -873,6 +883,66 @@ def ncols_of(ids):
 
 
 # ---------------------------------------------------------------------------------------------
+# (f) finding F24: a STRUCTURAL value of compressed data (delayed replication factor, bitmap bit) missing / different in one
+#     subset.  Bit-level messages of harness/structcols.py.  Oracle: whatever the compressed message decodes to, the same
+#     values written uncompressed (and compressed again) by the Encoder decode to the same values, labels and links.
+def structural_oracle(c, obs):
+    """-> (why, extra) or None for one mutated message `c` whose implementation decode is `obs`"""
+    if obs[0] != 'ok':
+        return None                       # refused: nothing that an uncompressed form could differ from
+    vals = [list(s['v']) for s in obs[1]]
+    if any(v is None and lab in ('031031', '031000') for s in obs[1] for lab, v in zip(s['d'], s['v'])):
+        return 'one-bit'                  # a missing value of a one-bit field is not a conforming input (see `assumptions`)
+    for comp, what in ((False, 'uncompressed'), (True, 'compressed again')):
+        st, b2, _ = C.impl_encode(C.make_message_json(c['ids'], vals, comp))
+        if st != 'ok':
+            return ('the compressed message decodes to %r, which the Encoder refuses to write %s (%s)' % (
+                [v[:12] for v in vals[:3]], what, st), {})
+        o2 = C.impl_decode(b2)
+        why = obs_diff(obs, o2, 'compressed', what)
+        if why:
+            return (why, {'other_hex': b2.hex()})
+    return None
+
+
+def structural_part(ctx, drv, treq, count, only=None):
+    rng = ctx.rng('structural')
+    cases = only if only is not None else structcols.make_cases(rng, count)
+    reqs = [treq]
+    obss = []
+    for c in cases:
+        obss.append(C.impl_decode(c['bytes']))
+        reqs.append({'op': 'dec-data', 'ids': c['ids'], 'compressed': True, 'n': c['n'], 'bits': C.data_bits(c['bytes'])})
+    models = drv.batch(reqs)[1:] if cases else []
+    for c, obs, model in zip(cases, obss, models):
+        ctx.case({'ids': c['ids'], 'n': c['n'], 'structural': [c['column'], c['kind'], c['label'], c['position']]},
+                 nontrivial=True, sample=False)
+        ctx.traces += 1
+        ctx.count('structural:%s:%s:%s' % (c['column'], c['kind'], 'decodes' if obs[0] == 'ok' else 'refused'))
+        ctx.count('structural:label-' + c['label'])
+        if c['inside_replication']:
+            ctx.count('structural:behind-or-inside-a-replication')
+        rep = {'structural': True, 'ids': c['ids'], 'n_subsets': c['n'], 'message_hex': c['bytes'].hex(),
+               'wellformed_hex': c['base_bytes'].hex(), 'kind': c['kind'], 'column': c['column'], 'label': c['label'],
+               'position': c['position'], 'intended_column': c['intended']}
+        sig = {'stage': 'structural-transparency', 'column': c['column'], 'kind': c['kind']}
+        bad = structural_oracle(c, obs)
+        if bad == 'one-bit':
+            ctx.count('structural:decodes-to-a-missing-one-bit-value(not-conforming,oracle-skipped)')
+            bad = None
+        if bad:
+            rep['why'] = bad[0]
+            rep.update(bad[1])
+            ctx.violation('structural-transparency: %s value %s (%s of %s at position %d): %s (ids %s, %d subsets)' % (
+                c['column'], c['kind'], c['intended'], c['label'], c['position'], bad[0], c['ids'][:30], c['n']), rep, signature=sig)
+        why = P.compare_decode(obs, model)
+        if why:
+            rep2 = dict(rep, why=why)
+            ctx.violation('structural decode-correspondence: %s (ids %s, %s %s)' % (why, c['ids'][:30], c['column'], c['kind']), rep2,
+                          signature=dict(sig, stage='structural-decode-correspondence'), no_failing_input=not bad)
+
+
+# ---------------------------------------------------------------------------------------------
 def run(ctx):
     drv = ctx.driver
     treq = tables_io.group_request()
@@ -881,6 +951,7 @@ def run(ctx):
                 'that re-encodes with the flag flipped, or is a distinct column of the exhaustive part')
     ctx.assumptions = ['a missing value for a 1-bit field is not a conforming input (FM 94 has no missing value for 1-bit fields); never generated',
                        'numeric entries are below the all-ones pattern of their field (the property\'s raw domain); code/flag entries may reach it']
+    structural_part(ctx, drv, treq, 150 if quick else 3000)
     random_part(ctx, drv, treq, 260 if quick else 6000)
     widths_part(ctx, drv, treq)
     generated_part(ctx, drv, treq, 540 if quick else 12000)
@@ -895,6 +966,15 @@ def replay(ctx, path):
     drv = ctx.driver
     if 'undischarged' in rep:
         print(json.dumps(rep, default=repr)[:3000])
+        return
+    if rep.get('structural'):
+        c = {'ids': rep['ids'], 'n': rep['n_subsets'], 'bytes': bytes.fromhex(rep['message_hex']),
+             'base_bytes': bytes.fromhex(rep['wellformed_hex']), 'kind': rep['kind'], 'column': rep['column'],
+             'label': rep['label'], 'position': rep['position'], 'intended': rep['intended_column'], 'inside_replication': False}
+        o = C.impl_decode(c['bytes'])
+        print('replay: the message decodes to', o[0], o[1] and [s['v'] for s in o[1]])
+        structural_part(ctx, drv, tables_io.group_request(), 0, only=[c])
+        print('replay structural:', 'violation' if ctx.violations else 'holds (refused, or transparent)')
         return
     if 'file' in rep:
         corpus_part(ctx, drv, only=rep['file'])
